@@ -399,7 +399,7 @@ class Judge(object):
         if order not in self.serial_cache:
             st, d = self.eng.serial(self.image, self.requests, order)
             # per-request (status, error code) needs a re-run with bodies; keep statuses + codes
-            self.serial_cache[order] = (st, d.core(gens=True), d)
+            self.serial_cache[order] = (st, d.core(gens=True), d, _core(d, True))
         return self.serial_cache[order]
 
     def serial_answers(self):
@@ -439,7 +439,18 @@ class Judge(object):
                 add('5xx:%s|vs|%s' % (tags[i], '+'.join(t for j, t in enumerate(tags) if j != i)),
                     '%s answered %s %s under schedule %s' % (tags[i], r.status, r.raw[:200], sched))
         winners = tuple(i for i in range(n) if statuses[i] < 300)
-        final = dump.core(gens=True)
+        # A write below 1.38 cannot name a consumer type and leaves whatever the record has; when
+        # such a request races for a *new* consumer the record it adopts may have been created by
+        # either party, so the stored type is unspecified: compare without it.
+        from vp import reqs as rq
+        mask_type = any(is_consumer_write(reqs_[i]) and rq.ver(reqs_[i].get('mv')) < (1, 38)
+                        for i in range(n))
+        final = _core(dump, mask_type)
+        # the generation-less DELETE /allocations may have taken effect at any point: the other
+        # requests' answers and the stored rows are judged, generation *values* are not
+        mask_gens = any(_unsafe(reqs_[i]) for i in winners)
+        if mask_gens:
+            final = dump.core(gens=False)
         ok = False
         # DELETE /allocations/{c} carries no generation and is documented as unsafe against
         # concurrent writers: it may or may not take effect; only the other requests are judged
@@ -448,7 +459,11 @@ class Judge(object):
         for k in range(len(unsafe), -1, -1):
             for sub in itertools.combinations(unsafe, k):
                 for order in itertools.permutations(tuple(safe) + sub):
-                    st, core, _ = self.serial(order)
+                    st, core, dser, core_m = self.serial(order)
+                    if mask_type:
+                        core = core_m
+                    if mask_gens:
+                        core = dser.core(gens=False)
                     if all(s < 300 for s in st) and core == final:
                         ok = True
                         break
@@ -459,10 +474,10 @@ class Judge(object):
         if not ok:
             # explain against the first permutation
             order = winners
-            st, core, d = self.serial(order)
+            st, core, d, _cm = self.serial(order)
             kind = 'state-differs'
             for o2 in itertools.permutations(winners):
-                if self.serial(o2)[1] == final:
+                if self.serial(o2)[3 if mask_type else 1] == final:
                     kind = 'same-state-but-not-all-succeed-serially'
             add('not-serializable:%s:%s:%s' % ('+'.join(sorted(tags)), statuses, kind),
                 'schedule %s answered %s; no serial order of the successful requests %s gives the '
@@ -478,6 +493,9 @@ class Judge(object):
         for i in range(n if self.prop not in ('C08', 'C09') else 0):
             if statuses[i] < 300 or statuses[i] >= 500:
                 continue
+            if self.prop == 'C06' and is_consumer_write(reqs_[i]) and \
+                    rq.ver(reqs_[i].get('mv')) < (1, 28):
+                continue      # carries no consumer generation: a disturbing party, not judged
             code = ex.resps[i].err_code()
             if statuses[i] == 409 and (code == 'placement.concurrent_update' or code is None and
                                        _below_1_23(reqs_[i])):
@@ -510,6 +528,11 @@ class Judge(object):
                     ct = committing_txn(ex.txn_info[i])
                     if statuses[i] < 300 and ct is not None:
                         at = ct['cgens'].get(c)
+                        if _noop_for(reqs_[i], c):
+                            # a clearing entry that finds nothing (left) to clear writes nothing
+                            # for that consumer; one that does wipe another request's rows is
+                            # caught by the serial-equivalence rule above
+                            continue
                         if g is None and at == 0 and _created_consumer(ex.txn_info[i], ct):
                             # null = "must not exist yet": this request created the row itself
                             # in an earlier transaction of its own
@@ -520,6 +543,30 @@ class Judge(object):
                                 'the begin of its committing transaction it was %r (schedule %s)'
                                 % (tags[i], g, c, at, sched))
                         same.setdefault((c, g), []).append(i)
+
+
+def is_consumer_write(req):
+    return ((req['method'] == 'PUT' and req['path'].startswith('/allocations/')) or
+            (req['method'] == 'POST' and req['path'] in ('/allocations', '/reshaper')))
+
+
+def _noop_for(req, consumer):
+    from vp import reqs as rq
+    placed = rq.placed(req).get(consumer)
+    return placed is not None and not placed
+
+
+def _core(d, mask_type):
+    if not mask_type:
+        return d.core(gens=True)
+    saved = {u: c['type'] for u, c in d.consumers.items()}
+    for c in d.consumers.values():
+        c['type'] = None
+    try:
+        return d.core(gens=True)
+    finally:
+        for u, c in d.consumers.items():
+            c['type'] = saved[u]
 
 
 def _unsafe(req):
